@@ -41,9 +41,14 @@ theorem slotInv_sublist (cfg : Cfg) (s s' : St) (h : s'.slots.Sublist s.slots) (
    (h.map _).nodup hi.slotUnique, (h.map _).nodup hi.recUnique⟩
 
 theorem slot_step (cfg : Cfg) (s s' : St) (e : Ev) (hi : SlotInv cfg s) (h : accept cfg s e = some s') : SlotInv cfg s' := by
+  -- the event is judged in `s.before e`, which has the same slots
+  refine (?_ : ∀ t : St, SlotInv cfg t → acceptCore cfg t e = some s' → SlotInv cfg s') (s.before e)
+    (slotInv_sublist cfg s _ (by rw [St.before_slots]; exact List.Sublist.refl _) hi) h
+  clear h hi s
+  intro s hi h
   by_cases h1 : ∃ c d m p r, e = .cmd c d m p r
   · obtain ⟨c, d, m, p, r, rfl⟩ := h1
-    simp only [accept] at h
+    simp only [acceptCore] at h
     split at h
     · cases h
     · split at h
@@ -85,17 +90,17 @@ theorem slot_step (cfg : Cfg) (s s' : St) (e : Ev) (hi : SlotInv cfg s) (h : acc
           · cases h
   · by_cases h2 : ∃ c bs, e = .rbytes c bs
     · obtain ⟨c, bs, rfl⟩ := h2
-      simp only [accept] at h
+      simp only [acceptCore] at h
       split at h
       · cases h
       · cases h
         exact slotInv_sublist cfg _ _ (feedReports_slots cfg c bs _) ⟨hi.bound, hi.slotUnique, hi.recUnique⟩
     · by_cases h3 : e = .restart
       · subst h3
-        simp only [accept] at h
+        simp only [acceptCore] at h
         cases h
         exact ⟨fun c => by simp [usedCount], by simp, by simp⟩
-      · have := slots_unchanged cfg s s' e h (fun c d m p r he => h1 ⟨c, d, m, p, r, he⟩) (fun c bs he => h2 ⟨c, bs, he⟩) h3
+      · have := slots_unchanged_core cfg s s' e h (fun c d m p r he => h1 ⟨c, d, m, p, r, he⟩) (fun c bs he => h2 ⟨c, bs, he⟩) h3
         exact ⟨fun c => by unfold usedCount; rw [this]; exact hi.bound c, by rw [this]; exact hi.slotUnique, by rw [this]; exact hi.recUnique⟩
 
 theorem reach_slots (cfg : Cfg) (s : St) (h : Reach cfg s) : SlotInv cfg s := by
@@ -129,7 +134,12 @@ theorem C04_no_retry (cfg : Cfg) (s s' : St) (c : Ch) (d m pos : Nat) (r : Bytes
     (h : accept cfg s (.cmd c d m pos r) = some s') :
     ∃ rs idx, (s.msg m).chan c = some rs ∧ recIndex rs pos = some idx ∧ (rs.getD idx ⟨true, []⟩).done = false ∧
       (rs.getD idx ⟨true, []⟩).addr = r ∧ (s.msg m).todo = none ∧ inFlight s m c idx = false := by
-  simp only [accept] at h
+  refine (?_ : ∀ t : St, acceptCore cfg t (.cmd c d m pos r) = some s' →
+      ∃ rs idx, (t.msg m).chan c = some rs ∧ recIndex rs pos = some idx ∧ (rs.getD idx ⟨true, []⟩).done = false ∧
+        (rs.getD idx ⟨true, []⟩).addr = r ∧ (t.msg m).todo = none ∧ inFlight t m c idx = false) s.calm h
+  clear h s
+  intro s h
+  simp only [acceptCore] at h
   split at h
   · cases h
   · split at h
@@ -151,7 +161,10 @@ accepted (in the same run, after a clean restart, or after a crash that kept the
 theorem C04_marked_refused (cfg : Cfg) (s : St) (c : Ch) (d m pos : Nat) (r : Bytes) (rs : List Rec) (idx : Nat)
     (hc : (s.msg m).chan c = some rs) (hi : recIndex rs pos = some idx) (hd : (rs.getD idx ⟨true, []⟩).done = true) :
     accept cfg s (.cmd c d m pos r) = none := by
-  simp only [accept]
+  refine (?_ : ∀ t : St, (t.msg m).chan c = some rs → acceptCore cfg t (.cmd c d m pos r) = none) s.calm hc
+  clear hc s
+  intro s hc
+  simp only [acceptCore]
   split
   · rfl
   · simp only [hc, hi]
@@ -164,7 +177,11 @@ theorem C04_marked_refused (cfg : Cfg) (s : St) (c : Ch) (d m pos : Nat) (r : By
 /-- writing the mark makes the record done -/
 theorem C04_mark_sets (cfg : Cfg) (s s' : St) (c : Ch) (m pos : Nat) (h : accept cfg s (.markD m c pos) = some s') :
     ∃ rs idx, (s.msg m).chan c = some rs ∧ recIndex rs pos = some idx ∧ (s'.msg m).chan c = some (setDone rs idx) := by
-  simp only [accept] at h
+  refine (?_ : ∀ t : St, acceptCore cfg t (.markD m c pos) = some s' →
+      ∃ rs idx, (t.msg m).chan c = some rs ∧ recIndex rs pos = some idx ∧ (s'.msg m).chan c = some (setDone rs idx)) s.calm h
+  clear h s
+  intro s h
+  simp only [acceptCore] at h
   split at h
   · cases h
   · split at h
@@ -182,7 +199,7 @@ theorem C04_mark_sets (cfg : Cfg) (s s' : St) (c : Ch) (m pos : Nat) (h : accept
 /-- only marks written with `markD` and reverted by a machine crash change a record's mark: a
 restart of the daemon (clean, or after a process crash) forgets the slots but no file content -/
 theorem C04_restart_keeps (cfg : Cfg) (s s' : St) (h : accept cfg s .restart = some s') : s'.tab = s.tab ∧ s'.slots = [] := by
-  simp only [accept] at h
+  simp only [accept_restart] at h
   cases h; exact ⟨rfl, rfl⟩
 
 
@@ -206,12 +223,13 @@ theorem C04_K_owed (cfg : Cfg) (s s' : St2) (c : Ch) (bs : Bytes) (h : accept2 c
   · split at h
     · rename_i b hb
       cases h
-      simp only [accept] at hb
+      change acceptCore cfg s.base.calm _ = _ at hb
+      simp only [acceptCore] at hb
       split at hb
       · cases hb
       · cases hb
         intro m c' i hd
-        rcases (feedReports_delivered cfg c bs { s.base with mayMark := [], notes := [] }).2 m c' i hd with h1 | h1
+        rcases (feedReports_delivered cfg c bs { s.base.calm with mayMark := [], notes := [] }).2 m c' i hd with h1 | h1
         · exact Or.inl h1
         · exact Or.inr (List.mem_append_left _ (List.mem_append_left _ h1))
     · cases h
@@ -226,16 +244,18 @@ theorem C04_D_owed (cfg : Cfg) (s s' : St2) (m : Nat) (bs : Bytes) (h : accept2 
   · split at h
     · rename_i b hb
       cases h
-      simp only [accept] at hb
+      change acceptCore cfg s.base.calm _ = _ at hb
+      simp only [acceptCore] at hb
       split at hb
       · cases hb
       · split at hb
         · cases hb
         · rename_i n hn
+          have hn : s.base.notes.find? (fun n => n.m == m) = some n := hn
           split at hb
           · cases hb
             intro c' i hd
-            have hd' : (c', i) ∈ (St.msg (St.upd s.base m (fun ms => { ms with bounce := some ((ms.bounce.getD []) ++ bs), fin := (n.c, n.idx) :: ms.fin, noted := (n.c, n.idx) :: ms.noted, inFile := (n.c, n.idx) :: ms.inFile, lastInject := false })) m).noted := hd
+            have hd' : (c', i) ∈ (St.msg (St.upd s.base.calm m (fun ms => { ms with bounce := some ((ms.bounce.getD []) ++ bs), fin := (n.c, n.idx) :: ms.fin, noted := (n.c, n.idx) :: ms.noted, inFile := (n.c, n.idx) :: ms.inFile, lastInject := false })) m).noted := hd
             rw [St.msg_upd] at hd'
             simp only [if_true] at hd'
             rcases List.mem_cons.1 hd' with he | hin
@@ -296,14 +316,16 @@ theorem C04_owed_persists (cfg : Cfg) (s s' : St2) (e : Ev2) (h : accept2 cfg s 
     simp only [accept2] at h
     split at h
     · rename_i idx hidx
-      cases h
-      by_cases hxe : x = (m, c, idx)
-      · right; right; left
-        refine ⟨pos, ?_, ?_⟩
-        · rw [hxe]
-        · rw [hxe]; exact hidx
-      · left; exact mem_dropRec hx hxe
-    · cases h; exact Or.inl hx
+      split at h
+      · cases h
+        by_cases hxe : x = (m, c, idx)
+        · right; right; left
+          refine ⟨pos, ?_, ?_⟩
+          · rw [hxe]
+          · rw [hxe]; exact hidx
+        · left; exact mem_dropRec hx hxe
+      · cases h
+    · cases h
   | ev e0 =>
     simp only [accept2] at h
     split at h
@@ -350,7 +372,7 @@ theorem C04_owed_persists (cfg : Cfg) (s s' : St2) (e : Ev2) (h : accept2 cfg s 
 restart forgets neither a file nor a due mark -/
 theorem C04_cleanRestart_keeps (cfg : Cfg) (s s' : St2) (h : accept2 cfg s .cleanRestart = some s') :
     s.base.slots = [] ∧ s'.owed = s.owed ∧ s'.base.tab = s.base.tab ∧ s'.base.slots = [] := by
-  simp only [accept2, accept] at h
+  simp only [accept2, accept_restart] at h
   split at h
   · rename_i he
     cases h; exact ⟨by simpa using he, rfl, rfl, rfl⟩
@@ -367,14 +389,45 @@ theorem C04_layer_refines (cfg : Cfg) (s s' : St2) (e : Ev) (h : accept2 cfg s (
     · rename_i b hb; cases h; exact hb
     · cases h
 
+/-- the base events an event of the layer stands for: a failing `markdone` is no event of the base monitor; a clean stop and
+restart is a `.restart` after which no crash damage is reported — the first thing the new daemon does (here: it reads the
+clock, which changes nothing) closes the crash window -/
+def baseEvents (s : St2) : Ev2 → List Ev
+  | .ev e => [e]
+  | .markFail _ _ _ => []
+  | .cleanRestart => [.restart, .tick s.base.clock]
+
+/-- … for every event of the layer (not only `.ev e`): the base states of a history `accept2` accepts are a history of the base
+monitor, so the theorems about `accept` / `acceptAll` (C03, `C04_bound`, `C04_single`) apply to them -/
+theorem C04_layer_refines_all (cfg : Cfg) (s s' : St2) (e : Ev2) (h : accept2 cfg s e = some s') :
+    acceptAll cfg s.base (baseEvents s e) = some s'.base := by
+  cases e with
+  | ev e0 => simp only [baseEvents, acceptAll, C04_layer_refines cfg s s' e0 h]
+  | markFail m c pos =>
+    simp only [accept2] at h
+    split at h
+    · split at h
+      · cases h; rfl
+      · cases h
+    · cases h
+  | cleanRestart =>
+    simp only [accept2, accept_restart] at h
+    split at h
+    · cases h
+      simp only [baseEvents, acceptAll, accept_restart]
+      simp [accept, St.before, Ev.inCrashWindow, acceptCore, St.calm]
+    · cases h
+
 /-! ### Never again: whole traces -/
 
 /-- **A completion mark on disk stays `D`** under every event the monitor accepts except a machine crash that reverts
-un-fsynced marks of that file (`crashMarks`), the removal of the file (`unlinkChan`) and a machine crash during
-preprocessing (`crashTodoFiles`): in particular across restarts, clean or not.  (Frame lemma over all event kinds.) -/
+THIS un-fsynced mark (`crashMarks` of its file with the record's own byte back to `T` — a `crashMarks` that keeps the byte keeps
+the mark), the removal of the file (`unlinkChan`) and a machine crash during preprocessing (`crashTodoFiles`): in particular
+across restarts, clean or not.  (Frame lemma over all event kinds.) -/
 theorem C04_mark_stays (cfg : Cfg) (s s' : St) (e : Ev) (h : accept cfg s e = some s') (x : Nat × Ch × Nat)
     (hm : markedDone s x = true) :
-    markedDone s' x = true ∨ (∃ marks, e = .crashMarks x.1 x.2.1 marks) ∨ e = .unlinkChan x.1 x.2.1 ∨ e = .crashTodoFiles x.1 :=
+    markedDone s' x = true ∨ (∃ marks, e = .crashMarks x.1 x.2.1 marks ∧ marks.getD x.2.2 false = false) ∨
+      e = .unlinkChan x.1 x.2.1 ∨ e = .crashTodoFiles x.1 :=
   markedDone_step cfg s s' e h x hm
 
 theorem getD_default_irrel {α : Type} (l : List α) (i : Nat) (a b : α) (h : i < l.length) : l.getD i a = l.getD i b := by
@@ -391,7 +444,8 @@ theorem C04_markD_fin (cfg : Cfg) (s s' : St) (c : Ch) (m pos : Nat) (h : accept
 
 /-- **One step**: a finished record (mark on disk, or final report handled and mark due) stays finished under every event
 `accept2` accepts, unless the event is one of the excuses (`excuse`: crash / failing `markdone` of this record while the mark
-is not on disk; `crashMarks`, `unlinkChan` of its file; `crashTodoFiles`, `cUnlinkTodo`, `newmsg` of its message). -/
+is not on disk; `crashMarks` of its file that reverts THIS record's byte; `unlinkChan` of its file; `crashTodoFiles`,
+`cUnlinkTodo`, `newmsg` of its message). -/
 theorem C04_fin_step (cfg : Cfg) (s s' : St2) (e : Ev2) (h : accept2 cfg s e = some s') (x : Nat × Ch × Nat) (hf : Fin2 s x) :
     Fin2 s' x ∨ excuse s x e = true := by
   by_cases hmk : markedDone s.base x = true
@@ -399,16 +453,20 @@ theorem C04_fin_step (cfg : Cfg) (s s' : St2) (e : Ev2) (h : accept2 cfg s e = s
     cases e with
     | ev e0 =>
       have hb := C04_layer_refines cfg s s' e0 h
-      rcases markedDone_step cfg s.base s'.base e0 hb x hmk with h1 | ⟨marks, rfl⟩ | rfl | rfl
+      rcases markedDone_step cfg s.base s'.base e0 hb x hmk with h1 | ⟨marks, rfl, hk⟩ | rfl | rfl
       · exact Or.inl (Or.inr h1)
-      · right; simp [excuse]
+      · right; simp only [excuse, hk]; simp
       · right; simp [excuse]
       · right; simp [excuse]
     | markFail m c pos =>
       simp only [accept2] at h
-      split at h <;> (cases h; exact Or.inl (Or.inr hmk))
+      split at h
+      · split at h
+        · cases h; exact Or.inl (Or.inr hmk)
+        · cases h
+      · cases h
     | cleanRestart =>
-      simp only [accept2, accept] at h
+      simp only [accept2, accept_restart] at h
       split at h
       · cases h; exact Or.inl (Or.inr hmk)
       · cases h
@@ -545,16 +603,17 @@ theorem C04_K_frees (cfg : Cfg) (s s1 : St2) (hr : Reach cfg s.base) (c : Ch) (b
   obtain ⟨sb, so⟩ := s1
   have hb : accept cfg s.base (.rbytes c bs) = some sb := C04_layer_refines cfg s _ _ h
   show inFl sb (m, c', i) = false
-  simp only [accept] at hb
+  change acceptCore cfg s.base.calm _ = _ at hb
+  simp only [acceptCore] at hb
   split at hb
   · cases hb
   · cases hb
     have hu := (reach_slots cfg s.base hr).recUnique
     have h0 : dcount s.base (m, c', i) = 0 := by
       simp only [dcount]; exact List.count_eq_zero.2 hnd
-    refine feedReports_newK cfg c (m, c', i) 0 bs { s.base with mayMark := [], notes := [] } hu ?_ ?_
+    refine feedReports_newK cfg c (m, c', i) 0 bs { s.base.calm with mayMark := [], notes := [] } hu ?_ ?_
     · intro hh
-      have : dcount { s.base with mayMark := [], notes := [] } (m, c', i) = dcount s.base (m, c', i) := rfl
+      have : dcount { s.base.calm with mayMark := [], notes := [] } (m, c', i) = dcount s.base (m, c', i) := rfl
       rw [this, h0] at hh; exact absurd hh (Nat.lt_irrefl _)
     · exact List.count_pos_iff.2 hd
 
@@ -624,6 +683,48 @@ example :
        .markFail 7 .loc 0, .ev (.cmd .loc 0 7 0 [97])])).isSome = true ∧
     acceptAll2 cfg2 {} (pre ++ [.ev (.cmd .loc 0 7 0 [97]), .ev (.cmd .loc 1 7 3 [98]), .ev (.rbytes .loc [0, 75, 0, 1, 75, 0]),
        .markFail 7 .loc 0, .ev (.cmd .loc 1 7 3 [98])]) = none := by
+  decide
+
+/-- the second-pass audit's probes (B), now REFUSED: a `crashMarks` with no crash (it reverted a written mark and "excused" a
+second delivery — at any idle instant) is refused, and so is the retry; after a crash it is accepted, and then the retry is
+legitimate.  A `markFail` for a record whose mark is not due (nothing was reported, or the mark was already written) is refused;
+for a record whose mark is due it is accepted and only that record may be retried. -/
+example :
+    let pre : List Ev2 :=
+      [.ev (.newmsg 7 [115] [[97], [98]]), .ev (.creatInfo 7), .ev (.writeInfo 7 [70, 115, 0]), .ev (.creatChan 7 .loc),
+       .ev (.writeChan 7 .loc [84, 97, 0, 84, 98, 0]), .ev (.fsyncInfo 7), .ev (.fsyncChan 7 .loc),
+       .ev (.cleanReq [116, 111, 100, 111, 47, 55, 0]), .ev (.cUnlinkIntd 7), .ev (.cUnlinkTodo 7), .ev (.cleanResp 43)]
+    let cfg2 : Cfg := { conc := fun _ => 2, lifetime := 1000, route := fun a => (.loc, a), doublebounceto := [112] }
+    let marked : List Ev2 := pre ++ [.ev (.cmd .loc 0 7 0 [97]), .ev (.rbytes .loc [0, 75, 0]), .ev (.markD 7 .loc 0)]
+    (acceptAll2 cfg2 {} marked).isSome = true ∧
+    acceptAll2 cfg2 {} (marked ++ [.ev (.crashMarks 7 .loc [false, false])]) = none ∧
+    acceptAll2 cfg2 {} (marked ++ [.ev (.cmd .loc 0 7 0 [97])]) = none ∧
+    (acceptAll2 cfg2 {} (marked ++ [.ev .restart, .ev (.crashMarks 7 .loc [false, false]), .ev (.cmd .loc 0 7 0 [97])])).isSome = true ∧
+    -- a crash-damage event after a CLEAN stop is refused too
+    acceptAll2 cfg2 {} (marked ++ [.cleanRestart, .ev (.crashMarks 7 .loc [false, false])]) = none ∧
+    -- `markFail` needs a due mark
+    acceptAll2 cfg2 {} (marked ++ [.markFail 7 .loc 0]) = none ∧
+    acceptAll2 cfg2 {} (marked ++ [.markFail 7 .loc 3]) = none ∧
+    (acceptAll2 cfg2 {} (marked ++ [.ev (.cmd .loc 0 7 3 [98]), .ev (.rbytes .loc [0, 75, 0]), .markFail 7 .loc 3,
+        .ev (.cmd .loc 0 7 3 [98])])).isSome = true ∧
+    acceptAll2 cfg2 {} (marked ++ [.ev (.cmd .loc 0 7 3 [98]), .ev (.rbytes .loc [0, 75, 0]), .markFail 7 .loc 3, .markFail 7 .loc 3]) = none := by
+  decide
+
+/-- a `crashMarks` that KEEPS the record's byte is no excuse (finding 3 of the second-pass audit): record 0 marked, crash,
+`crashMarks 7 loc [true, false]` — no excusing event for record 0 in this continuation, and (`C04_never_again`) no command for
+it; the one that reverts the byte is an excuse -/
+example :
+    let pre : List Ev2 :=
+      [.ev (.newmsg 7 [115] [[97], [98]]), .ev (.creatInfo 7), .ev (.writeInfo 7 [70, 115, 0]), .ev (.creatChan 7 .loc),
+       .ev (.writeChan 7 .loc [84, 97, 0, 84, 98, 0]), .ev (.fsyncInfo 7), .ev (.fsyncChan 7 .loc),
+       .ev (.cleanReq [116, 111, 100, 111, 47, 55, 0]), .ev (.cUnlinkIntd 7), .ev (.cUnlinkTodo 7), .ev (.cleanResp 43),
+       .ev (.cmd .loc 0 7 0 [97]), .ev (.rbytes .loc [0, 75, 0]), .ev (.markD 7 .loc 0)]
+    ((acceptAll2 cfg0 {} pre).map fun s =>
+       (anyAlong cfg0 (fun t e => excuse t (7, .loc, 0) e) s [.ev .restart, .ev (.crashMarks 7 .loc [true, false]), .ev (.cmd .loc 0 7 3 [98])],
+        (acceptAll2 cfg0 s [.ev .restart, .ev (.crashMarks 7 .loc [true, false]), .ev (.cmd .loc 0 7 3 [98])]).isSome,
+        (acceptAll2 cfg0 s [.ev .restart, .ev (.crashMarks 7 .loc [true, false]), .ev (.cmd .loc 0 7 0 [97])]).isNone,
+        anyAlong cfg0 (fun t e => excuse t (7, .loc, 0) e) s [.ev .restart, .ev (.crashMarks 7 .loc [false, false])]))
+      = some (false, true, true, true) := by
   decide
 
 end Nq.Props.C04
